@@ -391,6 +391,45 @@ fn build_body(env: &Rc<Env>, k: usize, spec: &BodySpec, payload: Option<actix_ht
     }
 }
 
+/// The upgrade service: logs the request like a handler, answers `101 Switching Protocols` with
+/// the request's tag through the framed transport it was handed, flushes and ends.
+async fn upgraded(env: Rc<Env>, req: Request, mut framed: actix_codec::Framed<ScriptIo, actix_http::h1::Codec>) -> Result<(), actix_http::Error> {
+    let k: usize = req.path().trim_start_matches('/').parse().unwrap_or(usize::MAX);
+    let n = {
+        let mut d = env.dispatched.borrow_mut();
+        *d += 1;
+        *d - 1
+    };
+    let mut headers: Vec<(String, String)> = vec![];
+    let mut names: Vec<String> = req.headers().keys().map(|k| k.as_str().to_string()).collect();
+    names.sort();
+    names.dedup();
+    for name in names {
+        for v in req.headers().get_all(name.as_str()) {
+            headers.push((name.clone(), String::from_utf8_lossy(v.as_bytes()).into_owned()));
+        }
+    }
+    env.push(Event::Dispatch {
+        n,
+        handler: k,
+        method: req.method().as_str().to_string(),
+        target: req.uri().to_string(),
+        version: if req.version() == actix_http::Version::HTTP_11 { 1 } else { 0 },
+        headers,
+        out_len: env.io.borrow().out.len(),
+        now_ms: env.now(),
+    });
+    let res = Response::build(StatusCode::SWITCHING_PROTOCOLS).insert_header(("x-tag", format!("h{k}"))).finish().drop_body();
+    env.push(Event::Responded { handler: k, out_len: env.io.borrow().out.len(), failed: false, consumed: env.io.borrow().rpos });
+    let mut framed = Pin::new(&mut framed);
+    let mut sent = framed.as_mut().write(actix_http::h1::Message::Item((res, BodySize::None))).is_ok();
+    if sent {
+        sent = std::future::poll_fn(|cx| framed.as_mut().flush(cx)).await.is_ok();
+    }
+    env.push(Event::Env { what: format!("upgrade-service-done ok={sent}"), now_ms: env.now() });
+    Ok(())
+}
+
 async fn handle(env: Rc<Env>, programs: Rc<Vec<HandlerProgram>>, mut req: Request) -> Result<Response<BoxBody>, actix_http::Error> {
     let path = req.path().to_string();
     let k: usize = path.trim_start_matches('/').parse().unwrap_or(usize::MAX);
@@ -752,8 +791,20 @@ async fn drive(sc: &Scenario, chooser: Rc<RefCell<Chooser>>) -> Exec {
         let env3 = env.clone();
         builder = builder.graceful_shutdown_signal(move || SignalFut(env3.clone()));
     }
-    let factory = builder.h1(fn_service(move |req: Request| handle(env2.clone(), programs.clone(), req)));
-    let svc = factory.new_service(()).await.expect("service");
+    type ConnFut = Pin<Box<dyn Future<Output = Result<(), actix_http::error::DispatchError>>>>;
+    let h1_service = fn_service::<_, _, Request, _, _, ()>(move |req: Request| handle(env2.clone(), programs.clone(), req));
+    let start_conn: Box<dyn FnOnce(ScriptIo) -> ConnFut> = if sc.config.upgrade {
+        let env4 = env.clone();
+        let factory = builder
+            .upgrade(fn_service::<_, _, _, _, _, ()>(move |(req, framed): (Request, actix_codec::Framed<ScriptIo, actix_http::h1::Codec>)| upgraded(env4.clone(), req, framed)))
+            .h1(h1_service);
+        let svc = factory.new_service(()).await.expect("service");
+        Box::new(move |io: ScriptIo| Box::pin(svc.call((io, None::<std::net::SocketAddr>))) as ConnFut)
+    } else {
+        let factory = builder.h1(h1_service);
+        let svc = factory.new_service(()).await.expect("service");
+        Box::new(move |io: ScriptIo| Box::pin(svc.call((io, None::<std::net::SocketAddr>))) as ConnFut)
+    };
     // let the date service run its first tick so the cached clock is the virtual clock
     settle().await;
     if sc.env.accept_delay_ms > 0 {
@@ -776,7 +827,7 @@ async fn drive(sc: &Scenario, chooser: Rc<RefCell<Chooser>>) -> Exec {
     }
 
     let wire_maps: Vec<Vec<(usize, usize)>> = if sc.env.gauges { sc.requests.iter().map(wire_map).collect() } else { vec![] };
-    let mut conn = Box::pin(svc.call((ScriptIo::new(io.clone()), None)));
+    let mut conn = start_conn(ScriptIo::new(io.clone()));
     let mut wk = WakeCounter::new();
     let waker = wk.waker();
     let mut first_poll = true;
